@@ -4,11 +4,11 @@
 #  1. the demonstration passes WITHOUT the change, 2. the patch applies and the tree builds,
 #  3. the demonstration FAILS with the change, 4. the repository's own tests of ./x/... ./app/... pass
 #  with it and, with "full", the integration suite too.
-# Env: WTPREFIX (default /tmp/wt-), SEEDROOT (default /tmp/seeded), INTEG_TIMEOUT (default 25m).
+# Env: WTPREFIX (default /tmp/wt-), SEEDROOT (default /tmp/seeded), INTEG_TIMEOUT (default 70m).
 # Writes /tmp/seeded/<PROP>/<variant>/confirm.log (last line: CONFIRMED or NOT-CONFIRMED <why>).
 set -u
 P=$1; V=$2; FULL=${3:-}
-WT=${WTPREFIX:-/tmp/wt-}$P; D=${SEEDROOT:-/tmp/seeded}/$P/$V; TMO=${INTEG_TIMEOUT:-25m}
+WT=${WTPREFIX:-/tmp/wt-}$P; D=${SEEDROOT:-/tmp/seeded}/$P/$V; TMO=${INTEG_TIMEOUT:-70m}
 export GOFLAGS=-mod=mod GOPROXY=off
 LOG=$D/confirm.log; : > $LOG
 cd $WT || exit 2
